@@ -437,7 +437,7 @@ func (p *Program) lifecycle() *lifecycle {
 			}
 		}
 	}
-	for name, v := range map[string]any{"HandleEnvelop": lc.HandleEnvelop, "mark-killed step": lc.MarkKilled, "cleanup step": lc.Cleanup, "scheduler cleanup step": lc.SchedCleanup,
+	for name, v := range map[string]any{"HandleEnvelop": lc.HandleEnvelop, "mark-killed step": lc.MarkKilled, "cleanup step": lc.Cleanup,
 		"restart step": lc.HandleRestart, "child-death step": lc.ChildDeath, "doKill": lc.DoKill, "onKill": lc.OnKill, "onRestart": lc.OnRestart,
 		"registry remove": lc.RemoveRegistry, "registry append": lc.AppendRegistry, "recover wrapper": lc.ExecRecover, "failed": lc.Failed} {
 		if f, _ := v.(*ssa.Function); f == nil {
